@@ -1,7 +1,8 @@
 (* C03 - pause/resume and suspend/release do not change the recorded data.
 
    (b) DATA EQUIVALENCE, proved (C03_data_equivalence_* below, Proofs/RE_Points*.v): for every open-loop
-   checkpointed plan (any number of points, bundles, streams, runs; class = Engine/PointSpec.v), devices that do not
+   checkpointed plan (any number of points, bundles, streams, runs, with stage/unstage around them: the class of
+   Engine/PointSpec.v, which contains the built-in count and scan plans as the RunEngine sees them), devices that do not
    fail and whose readings are determined by the `read` message, and EVERY well-formed schedule with pause requests
    (hard, or deferred to the next checkpoint) + resume() and suspension requests (no pre/post plans) + releases at
    arbitrary moments, any number of times, also during a replay -- except that no new request arrives while a
@@ -9,8 +10,8 @@
    exactly the (run, stream, seq_num, data) events and the RunStop documents of the reference semantics -- hence the
    same as the uninterrupted execution -- and nothing raised.
    Still decided only by the differential oracle (harness/props/C03.py): requests inside a suspension's
-   non-rewindable window, suspenders with pre/post plans, plans outside the class (stage/unstage, rewindable
-   toggles, monitors, several open runs at once, closed-loop plans), record_interruptions.
+   non-rewindable window, suspenders with pre/post plans, plans outside the class (rewindable toggles, monitors,
+   several open runs at once, closed-loop plans), record_interruptions.
    (a) Proved about the bundler of Engine/RE.v, for all bundler states:
      (a) a checkpoint snapshots every sequence counter; a rewind puts every snapshotted counter of a data stream
          back (the 'interruptions' stream keeps counting), whatever create/read/save/drop did in between, cancels the
@@ -19,7 +20,7 @@
      + C04 (Props/C04.v): exactly the messages since the checkpoint are re-issued, in order. *)
 From Coq Require Import List ZArith.
 From BV Require Import Engine.RE Engine.REInst Engine.PointSpec Proofs.RE_Ctl Proofs.RE_Replay Proofs.RE_CtlExamples
-  Proofs.RE_Points Proofs.RE_PointsEx.
+  Proofs.RE_Points Proofs.RE_PointsEx Proofs.RE_PointsEx2.
 Import ListNotations.
 
 Theorem C03_rewind_restores_counters :
@@ -167,3 +168,23 @@ Example C03_data_equivalence_nonvacuous :
    PointSpec.stops ex_susp_pause_obs = PointSpec.stops ex_plain_obs /\ no_raise ex_susp_pause_obs = true).
 Proof. exact c03_equivalence_nonvacuous. Qed.
 
+
+(* ... and on a real bluesky plan: bluesky.plans.scan([det], motor, 0, 4, 3), recorded from the real RunEngine
+   uninterrupted, with a pause inside the first point (+ resume) and with a suspension (+ release): the recorded plan
+   is of the class, every hypothesis holds, reads are re-issued (6 / 8 / 7 reading responses), and the theorem yields
+   equal events and RunStops *)
+Example C03_data_equivalence_scan_nonvacuous :
+  (spec_docs 0 sc_rdm sc_L = Some sc_SD /\ List.length sc_L = 36 /\ List.length (doc_events sc_SD) = 3) /\
+  follows TP (t_resume sc_tapes) (VUid 0) sc_L (t_plan_of 0) /\
+  (sc_plain_tapes = sc_tapes /\ sc_pause_tapes = sc_tapes /\ sc_susp_tapes = sc_tapes /\
+   check sc_tapes sc_plain_ledger [2] [0; 3] false sc_plain_evs sc_plain_obs = true /\
+   check sc_tapes sc_pause_ledger [2] [0; 3] false sc_pause_evs sc_pause_obs = true /\
+   check sc_tapes sc_susp_ledger [2] [0; 3] false sc_susp_evs sc_susp_obs = true) /\
+  (sc_hyps_ok sc_plain_ledger sc_plain_evs' = true /\ sc_hyps_ok sc_pause_ledger sc_pause_evs' = true /\
+   sc_hyps_ok sc_susp_ledger sc_susp_evs' = true) /\
+  (count_reads sc_plain_obs = 6 /\ count_reads sc_pause_obs = 8 /\ count_reads sc_susp_obs = 7) /\
+  ((forall x, In x (PointSpec.final_events sc_pause_obs) <-> In x (PointSpec.final_events sc_plain_obs)) /\
+   PointSpec.stops sc_pause_obs = PointSpec.stops sc_plain_obs /\ no_raise sc_pause_obs = true /\
+   (forall x, In x (PointSpec.final_events sc_susp_obs) <-> In x (PointSpec.final_events sc_plain_obs)) /\
+   PointSpec.stops sc_susp_obs = PointSpec.stops sc_plain_obs /\ no_raise sc_susp_obs = true).
+Proof. exact c03_scan_summary. Qed.
